@@ -34,6 +34,26 @@ CHECKS = {
          "DESIGN.md 4/C13",
          "(a) every capture-free body x 8 contexts x 5 naming variants (+ nested definitions referenced twice, inline subroutine inside a stored pattern, three levels) must report the spans of the written-out body on every text; (b) every 1-3 command source over 6 commands sharing 2 definitions equals the concatenation of its commands alone; (c) all Compile/Run histories to depth 3 (thorough 4) over 7 sources x 3 texts: each operation returns what it returns first in a fresh process, recompilation yields identical bytecode modulo loop ids, and no operation changes any live program's bytecode.",
          "Reflection reads *Vore's unexported bytecode for the state key (degrades, and says so, if the field disappears)."),
+ "C08": ("exploration", "bounded-exhaustive enumeration of source texts (token soups in context, all prefixes and one-token edits of a corpus, regex bodies, raw bytes) under a supervisor with watchdog",
+         "DESIGN.md 4/C08",
+         "About 5.6 million distinct sources per quick run: all <=3-token sequences over a 66-token alphabet in 14 grammatical contexts, every byte and token prefix and every one-token deletion / duplication / swap / substitution of every corpus program, every regex-literal body of <= 4 chars over 24 chars, all byte strings of <= 2 bytes. Each must yield program xor printable error, without panic, within 20 s / 2 GiB (worker subprocess + watchdog, solo confirmation); an accepted program's tree has no nil node and every command was generated.",
+         "Totality is decided on the enumerated short sources only; super-linear behaviour on long inputs is out of reach of a bounded check."),
+ "C11": ("exploration", "table-complete enumeration of operator x operand cells plus all small expression trees against an independent evaluator",
+         "DESIGN.md 4/C11",
+         "Every binary operator x every ordered pair of 16 operand expressions and every unary operator x operand (cells the documented typing accepts), on two match texts, observed through a transform and - for booleans - through `if` and a predicate; plus every typed expression tree with <= 3 operators rendered with minimal and with full parentheses (same parse tree required, value compared). Oracle: evaluator written from LanguageDetails.md's two tables.",
+         "Divisor 0 excluded (undocumented). Relative precedence of ==/!= vs < > <= >= is not fixed by the docs: trees mixing them are excluded."),
+ "C12": ("exploration", "exhaustive enumeration of operator/type cells and statement lists against a reference type checker; accepted programs are executed",
+         "DESIGN.md 4/C12",
+         "All operator x (lhs,rhs) type cells over type-representative leaves, all depth-2 compositions, every statement list of <= 2 statements over a ~600-statement pool and of 3 over the simple pool, in predicate and transform context: Compile accepts iff the reference checker (written from the documented tables) does, don't-care only for bool with - * / % and a number; every accepted program with provably terminating loops is run on two texts and must not panic.",
+         "Each variable keeps one type (as the property states)."),
+ "C15": ("exploration", "deviation-bounded exhaustive re-layout of a program corpus (every gap x filler, pairs of gaps, keyword case) with tree and result comparison",
+         "DESIGN.md 4/C15",
+         "Every corpus/generated program (repository examples, every source the tests compile, one program per production) in a minimal layout, then every gap x 6 fillers (1 deviation), all gap pairs x filler pairs on short programs (2 deviations), every keyword in UPPER/Title case: accepted iff the original, parse trees DeepEqual, Run results equal on 3 probe texts.",
+         "The variant generator's tokenizer is independent of the lexer. A filler starting with '-' directly after a '-' token gets a leading blank (they would fuse into a comment start)."),
+ "C16": ("exploration", "exhaustive enumeration of literal spellings against an independent decoder",
+         "DESIGN.md 4/C16",
+         "Every byte 0x01..0x7f in every spelling and quote style, every pair of bytes in every spelling combination, every body of <= 6 chars over {\\, x, 0, a, G, ', \"}: parsed value == independently decoded bytes; the literal matches its text once and in full and no one-byte perturbation.",
+         "ASCII only."),
 }
 
 PENDING_REASON = "check not built yet in this round of work (framework is being extended property by property; see DESIGN.md section 7)"
